@@ -3,6 +3,7 @@ import VoluteModel.Props.C01
 import VoluteModel.Props.C08
 import VoluteModel.Props.C09
 import VoluteModel.Props.C11
+import VoluteModel.Props.C10
 
 /-!
 # C02 - equality, hashing and ordering are extensional (no hidden representation state)
@@ -205,6 +206,10 @@ inductive Reachable : Lut → Prop
   | nCanon (a r) : Reachable a → Dyn.nCanonization a = some r → Reachable r.1
   | npnCanon (a r) : Reachable a → Dyn.npnCanonization a = some r → Reachable r.1
   | next (a) : Reachable a → Reachable (Dyn.verifNext a).1
+  | setValue (a m v l) : Reachable a → Dyn.setValue a m v = some l → Reachable l
+  | tryFromDyn (n a l) : Reachable a → Stat.tryFromDyn n a = some l → Reachable l
+  | toDyn (a l) : Reachable a → Stat.toDyn a = some l → Reachable l
+  | fromInt (n v l) : n ≤ 6 → v < 2 ^ (2 ^ n) → Stat.fromInt n v = some l → Reachable l
   | ofSop (s : Sop) : Reachable s.toLut
   | ofEsop (s : Esop) : Reachable s.toLut
   | ofSoes (s : Soes) : Reachable s.toLut
@@ -302,6 +307,30 @@ theorem reachable_WF (l : Lut) (h : Reachable l) : l.WF := by
     obtain ⟨q, hq, rfl⟩ := h
     exact npnCanon_WF a.n a.t ih q hq
   | next a _ ih => exact (VoluteModel.Props.C08.next_spec a ih).2.2.2
+  | setValue a m v l _ h ih =>
+    unfold Dyn.setValue at h
+    cases v with
+    | true =>
+      simp only [if_true, Dyn.setBit, Dyn.checkBit, Dyn.numBits] at h
+      obtain ⟨hm, rfl⟩ := ite_some_eq h
+      exact setBit_WF a.n a.t ih m (by simpa [Nat.shiftLeft_eq] using hm)
+    | false =>
+      simp only [Bool.false_eq_true, if_false, Dyn.unsetBit, Dyn.checkBit] at h
+      obtain ⟨_, rfl⟩ := ite_some_eq h
+      exact unsetBit_WF a.n a.t ih m
+  | tryFromDyn n a l _ h ih =>
+    by_cases hn : a.n = n
+    · rw [(VoluteModel.Props.C10.tryFromDyn_spec n a ih).1 hn] at h
+      cases h; exact ih
+    · rw [(VoluteModel.Props.C10.tryFromDyn_spec n a ih).2 hn] at h
+      cases h
+  | toDyn a l _ h ih =>
+    rw [VoluteModel.Props.C10.toDyn_spec a ih] at h
+    cases h; exact ih
+  | fromInt n v l hn hv h =>
+    obtain ⟨l', h', _, hwf, _⟩ := VoluteModel.Props.C10.fromInt_spec n v hn hv
+    rw [h'] at h
+    cases h; exact hwf
   | ofSop s => exact (tabulate_WF s.n _ (zero_WF s.n)).1
   | ofEsop s => exact (tabulate_WF s.n _ (zero_WF s.n)).1
   | ofSoes s => exact (tabulate_WF s.n _ (zero_WF s.n)).1
